@@ -3,7 +3,7 @@
     and the HTTP client return by the deadline of the context they are given — the models
     below use exactly the deadlines the code passes. *)
 From Coq Require Import List ZArith Bool.
-From TR Require Import Eng.Engine Eng.Timed Spec.C08 Pol.PublicIp Proofs.EngTimed Proofs.PolProofs Generated.Consts.
+From TR Require Import Eng.Engine Eng.Timed Spec.C08 Pol.PublicIp Proofs.EngTimed Proofs.EngFuel Proofs.PolProofs Generated.Consts.
 Import ListNotations.
 Open Scope Z_scope.
 
@@ -16,6 +16,12 @@ Theorem C08_parallel_bounded : forall p script r,
   /\ tr_elapsed r < parallel_bound p.
 Proof. exact parallel_run_spec. Qed.
 Print Assumptions C08_parallel_bounded.
+
+(** the model's recursion budget is never the reason a run ends: for EVERY script the parallel engine model returns a
+    result, an error, a failure or a timer tie — never out-of-fuel — so the bound above is not vacuous *)
+Theorem C08_parallel_never_out_of_fuel : forall p script, parallel_run p script <> TOutOfFuel.
+Proof. exact parallel_run_never_out_of_fuel. Qed.
+Print Assumptions C08_parallel_never_out_of_fuel.
 
 (** serial engine: the per-TTL sum *)
 Theorem C08_serial_bounded : forall p script r,
